@@ -10,9 +10,14 @@
    possibly empty) and are used on TEXTS: the constructor, the token sequence of a text
    (tokenizer output minus the skipped tokens) and parse(text) are C01's end-to-end model
    over the tokenizer model of C04; additionally the model's token sequence of every text
-   is compared with the one the generator rendered the text from. *)
+   is compared with the one the generator rendered the text from.
+   Third kind (SessionAny, C02/AnyExcept.v): as SessionTok, the productions lists may hold an
+   AnyTokenExcept item; the model expands it with the terminals of the case's configuration.
+   Phases: several such sessions whose parsers the implementation builds from ONE productions
+   dict (the same AnyTokenExcept objects) with DIFFERENT tokenizers, their operations
+   interleaved; in the model the sessions are independent of each other. *)
 From Coq Require Import ZArith List Bool.
-From AK Require Export LLP.Build C02.Model C02.Session C02.SessionTok.
+From AK Require Export LLP.Build C02.Model C02.Session C02.SessionTok C02.AnyExcept.
 From AK Require C01.Run.      (* hyps_ok: C01's validator of the factorization, hypothesis of ll1_reject *)
 From AK Require C01.RunTok.   (* build_cfg / text_tokens / parse_text: the constructor with a tokenizer configuration, parse(text) *)
 Import ListNotations.
@@ -25,7 +30,10 @@ Inductive case :=
      out) the GENERATOR rendered the text from -- compared here with the model tokenizer's *)
 | SessionTok (cfg : lexcfg) (skip : option (list sym))
              (ug : list (sym * list (list sym))) (start : sym) (fuel : nat)
-             (texts : list (list Z)) (expected : list sx) (ops : list op) (diag : bool).
+             (texts : list (list Z)) (expected : list sx) (ops : list op) (diag : bool)
+| SessionAny (cfg : lexcfg) (skip : option (list sym)) (ug : ugany) (start : sym) (fuel : nat)
+             (texts : list (list Z)) (expected : list sx) (ops : list op)
+| Phases (l : list case).
 
 Definition sx_keyed_sets (keys : list sym) (m : setmap) : sx :=
   sx_list (fun k => SL [sx_str k; sx_list sx_str (sort_syms (sm_get m k))]) (sort_syms keys).
@@ -59,6 +67,16 @@ Definition run_validators_t (cfg : lexcfg) (skip : option (list sym)) (ug : list
           sx_bool (C01.Run.hyps_ok ug start p)]
   end.
 
+Definition run_validators_any (cfg : lexcfg) (skip : option (list sym)) (ug : ugany)
+           (start : sym) (smart : bool) : sx :=
+  match t_build_any cfg skip ug start smart, expand_ug (C04.Model.cfg_terminals cfg) ug with
+  | Ok p, Ok ug' =>
+      SL [SZ 0; sx_bool (wf_grammar (p_grammar p) (p_terminals p) (p_start p));
+          sx_bool (C01.Run.hyps_ok ug' start p)]
+  | Ok _, Err e => SL [SZ 2]
+  | Err e, _ => SL [SZ 1; SZ (err_code e)]
+  end.
+
 (* () when the model's token sequence of the text is the generator's, otherwise (-1 model's) *)
 Fixpoint check_tokens (cfg : lexcfg) (skip : option (list sym)) (texts : list (list Z)) (expected : list sx) : list sx :=
   match texts, expected with
@@ -70,8 +88,16 @@ Fixpoint check_tokens (cfg : lexcfg) (skip : option (list sym)) (texts : list (l
   | _, _ => [SL [SZ (-2)]]
   end.
 
-Definition run (c : case) : sx :=
+Fixpoint run (c : case) : sx :=
   match c with
+  | Phases l => SL (map run l)
+  | SessionAny cfg skip ug start fuel texts expected ops =>
+      let '(bs, Wf) := session_any_w cfg skip ug start fuel texts no_objects ops in
+      SL [SL (map sx_obs bs);
+          run_validators_any cfg skip ug start false;
+          run_validators_any cfg skip ug start true;
+          SL [];
+          SL (check_tokens cfg skip texts expected)]
   | SessionTok cfg skip ug start fuel texts expected ops diag =>
       let '(bs, Wf) := session_t_w cfg skip ug start fuel texts no_objects ops in
       SL [SL (map sx_obs bs);
